@@ -6,6 +6,7 @@ func init() {
 		Technique:   "SSA summaries of the rewriting processors, role/provenance rules relating parser positions to engine uses (label_format direction, template bindings), ordering by dominance, sibling truth tables for drop/keep",
 		Explanation: "Decides the structural clauses of the rewriting stages for all lines: none of them drops a line; label_format's left identifier is the label created (rename source read and removed; template expanded over the labels after the same stage's renames); __line__/__timestamp__ bound to the per-line state stored before Execute; a failing line_format template keeps the line and flags __error__; drop deletes exactly the selected labels and keep exactly the others, with one shared selection predicate; decolorize returns the ANSI regexp's replacement of the line.",
 		Decided: []string{
+			"PV-FRESH: compileTemplate returns a template built by template.New in that call (never shared between stages); PV-WHOLE: the loops over a stage's rewrite list cannot be left early",
 			"PV-API: pcommon.Value.Str() only under Type() == ValueTypeStr (label values are read with AsString())",
 			"LP-CLASS / LP-ERRPATH: label_format, drop, keep are (Param, AlwaysTrue); line_format, decolorize AlwaysTrue; line_format returns the input line and SetError on template failure",
 			"PV-ROLE: parser lhs/rhs of label_format agree with the engine's Get/Set/Delete fields; LabelTemplate.Label is the Set target; rename -> AsMap -> Execute -> Set(buf.String())",
